@@ -55,9 +55,9 @@ theorem uid_roundtrip (u rest : Octets) (hl : u.length < 2 ^ 32) :
     packetDecode (uidEncode u ++ rest) = some (.uid u, rest) :=
   Tmcg.PgpEnc.uid_roundtrip u rest hl
 
-theorem lit_roundtrip (t : Nat) (d rest : Octets) (ht : t < 2 ^ 32) (hl : d.length + 6 < 2 ^ 32) (hne : d ≠ []) :
+theorem lit_roundtrip (t : Nat) (d rest : Octets) (ht : t < 2 ^ 32) (hl : d.length + 6 < 2 ^ 32) :
     packetDecode (litEncode t d ++ rest) = some (.lit 0x62 [] t d, rest) :=
-  Tmcg.PgpEnc.lit_roundtrip t d rest ht hl hne
+  Tmcg.PgpEnc.lit_roundtrip t d rest ht hl
 
 theorem sed_roundtrip (e rest : Octets) (hl : e.length < 2 ^ 32) (hne : e ≠ []) :
     packetDecode (sedEncode e ++ rest) = some (.sed e, rest) :=
